@@ -489,11 +489,14 @@ func padataTasks(r *vh.Run, add func(func())) {
 	for _, et := range kcrypto.Etypes {
 		et := et
 		for _, seq := range seqs {
-			for _, variant := range []string{"salts", "info2-nosalt", "multi-entry", "first-entry-other-etype"} {
+			for _, variant := range []string{"salts", "info2-nosalt", "multi-entry", "first-entry-other-etype", "overridden-info-names-other-etype"} {
 				seq, variant := seq, variant
 				ck := fmt.Sprintf("padata/et=%d/%s/%s", et, strings.Join(seq, ">"), variant)
 				if len(seq) == 0 && variant != "salts" {
 					continue
+				}
+				if variant == "overridden-info-names-other-etype" && !(strings.Contains(ck, "INFO2") && strings.Contains(strings.Replace(ck, "INFO2", "", -1), "INFO")) {
+					continue // needs both hints: the ETYPE-INFO that ETYPE-INFO2 overrides names another etype only
 				}
 				if !r.Mine(ck) {
 					continue
@@ -531,6 +534,9 @@ func padataTasks(r *vh.Run, add func(func())) {
 							pas = append(pas, types.PAData{PADataType: 19, PADataValue: etypeInfo2(entries...)})
 						case "INFO":
 							entries := [][]byte{infoEntry(et, &saltB)}
+							if variant == "overridden-info-names-other-etype" {
+								entries = [][]byte{infoEntry(other, &saltB)}
+							}
 							if variant == "multi-entry" {
 								so := "SALT-of-second-entry"
 								entries = append(entries, infoEntry(other, &so))
